@@ -63,4 +63,6 @@ bool h_named(const std::string &name, Case &c) __attribute__((weak));
 // helpers
 uint64_t fnv1a(const void *p, size_t n, uint64_t h = 1469598103934665603ULL);
 std::string strf(const char *fmt, ...) __attribute__((format(printf, 1, 2)));
+// printable rendering of a C string (NULL-safe)
+static inline std::string qstr(const char *s) { if (!s) return "(null)"; std::string r = "\""; for (const char *p = s; *p; p++) { unsigned char ch = *p; if (ch < 0x20 || ch >= 0x7f || ch == '"' || ch == '\\') { char b[8]; __builtin_snprintf(b, sizeof b, "\\x%02x", ch); r += b; } else r += (char)ch; } return r + "\""; }
 const char *h_workdir();   // per-worker scratch directory (exists), from --workdir
